@@ -187,24 +187,27 @@ impl World {
         self.hist.push(Item::Listen(id));
         (id, addr)
     }
-    fn connect(&mut self, t: Transport, addr: SocketAddr) -> Endpoint {
+    fn try_connect(&mut self, t: Transport, addr: SocketAddr) -> std::io::Result<Endpoint> {
         use message_io::adapters::{framed_tcp::FramedTcpConnectConfig, tcp::{TcpConnectConfig, TcpKeepalive}, udp::UdpConnectConfig};
         use message_io::network::TransportConnect;
         let secs = if self.bad_keepalive { 100_000 } else { 30 };
         let ka = || TcpKeepalive::new().with_time(Duration::from_secs(secs));
         let (ep, _) = if self.configured {
             match t {
-                Transport::Tcp => self.ctl.connect_with(TransportConnect::Tcp(TcpConnectConfig::default().with_keepalive(ka()).with_source_address("127.0.0.1:0".parse().unwrap())), addr).unwrap(),
-                Transport::FramedTcp => self.ctl.connect_with(TransportConnect::FramedTcp(FramedTcpConnectConfig::default().with_keepalive(ka())), addr).unwrap(),
-                Transport::Udp => self.ctl.connect_with(TransportConnect::Udp(UdpConnectConfig::default().with_source_address("127.0.0.1:0".parse().unwrap())), addr).unwrap(),
-                _ => self.ctl.connect(t, addr).unwrap(),
+                Transport::Tcp => self.ctl.connect_with(TransportConnect::Tcp(TcpConnectConfig::default().with_keepalive(ka()).with_source_address("127.0.0.1:0".parse().unwrap())), addr)?,
+                Transport::FramedTcp => self.ctl.connect_with(TransportConnect::FramedTcp(FramedTcpConnectConfig::default().with_keepalive(ka())), addr)?,
+                Transport::Udp => self.ctl.connect_with(TransportConnect::Udp(UdpConnectConfig::default().with_source_address("127.0.0.1:0".parse().unwrap())), addr)?,
+                _ => self.ctl.connect(t, addr)?,
             }
         }
         else {
-            self.ctl.connect(t, addr).unwrap()
+            self.ctl.connect(t, addr)?
         };
         self.hist.push(Item::Connect(ep.resource_id()));
-        ep
+        Ok(ep)
+    }
+    fn connect(&mut self, t: Transport, addr: SocketAddr) -> Endpoint {
+        self.try_connect(t, addr).unwrap()
     }
     fn send(&mut self, ep: Endpoint, n: usize) -> SendStatus {
         let st = self.ctl.send(ep, &vec![7u8; n]);
@@ -237,6 +240,71 @@ fn reset_close(s: TcpStream) {
     let sock = socket2::Socket::from(s);
     let _ = sock.set_linger(Some(Duration::from_secs(0)));
     drop(sock);
+}
+
+/// descriptor exhaustion while a connection waits at a listener: `accept()` answers EMFILE for as long as
+/// the process has no free descriptor.  The accept loop must give the network thread back (it logs the
+/// error and leaves), so that stop() still ends the node's threads within bounded time.
+fn run_emfile(t: Transport) -> (String, String, String, String) {
+    use message_io::node::{self, NodeEvent};
+    let (handler, listener) = node::split::<()>();
+    let (_lid, addr) = handler.network().listen(t, "127.0.0.1:0").unwrap();
+    let task = listener.for_each_async(move |e| {
+        if let NodeEvent::Network(_) = e {}
+    });
+    // a first connection goes through normally
+    let _first = TcpStream::connect(addr).ok();
+    std::thread::sleep(Duration::from_millis(100));
+    let (tx, rx) = std::sync::mpsc::channel();
+    let (go_tx, go_rx) = std::sync::mpsc::channel::<()>();
+    let waiter = std::thread::spawn(move || {
+        let _ = go_rx.recv();
+        let mut task = task;
+        let _ = std::panic::catch_unwind(std::panic::AssertUnwindSafe(|| task.wait()));
+        let _ = tx.send(());
+    });
+    let mut old = libc::rlimit { rlim_cur: 0, rlim_max: 0 };
+    unsafe { libc::getrlimit(libc::RLIMIT_NOFILE, &mut old) };
+    let low = libc::rlimit { rlim_cur: old.rlim_cur.min(256), rlim_max: old.rlim_max };
+    unsafe { libc::setrlimit(libc::RLIMIT_NOFILE, &low) };
+    let mut hoard = vec![];
+    while let Ok(f) = std::fs::File::open("/dev/null") {
+        hoard.push(f);
+        if hoard.len() > 100_000 {
+            break
+        }
+    }
+    hoard.pop();
+    // the freed descriptor goes to the client; the listener's accept() has none left
+    let client = TcpStream::connect(addr);
+    let exhausted = std::fs::File::open("/dev/null").is_err();
+    std::thread::sleep(Duration::from_millis(300));
+    handler.stop();
+    let _ = go_tx.send(());
+    let in_time = rx.recv_timeout(Duration::from_secs(3)).is_ok();
+    drop(hoard);
+    unsafe { libc::setrlimit(libc::RLIMIT_NOFILE, &old) };
+    if !in_time {
+        // with descriptors available again the loop ends by itself: nothing is left behind for the next case
+        let _ = rx.recv_timeout(Duration::from_secs(5));
+    }
+    let _ = waiter.join();
+    let ok = in_time && client.is_ok() && exhausted;
+    (
+        // a '#' case is not put to the model: the fault could not be produced here, nothing is compared
+        if client.is_err() || !exhausted { format!("#emfile-setup-failed {}", t) } else { format!("net emfile {}", t) },
+        if client.is_err() || !exhausted { "setup-failed".into() } else { format!("stopped_in_time={}", in_time) },
+        if ok {
+            "ok".into()
+        }
+        else if client.is_err() || !exhausted {
+            "ok".into() // could not produce the fault on this machine: nothing is claimed
+        }
+        else {
+            "FAIL 3 s after stop() the node's threads were still running: the accept loop keeps retrying a failing accept() (EMFILE)".into()
+        },
+        format!("emfile,{}", t),
+    )
 }
 
 fn dead_addr() -> SocketAddr {
@@ -538,6 +606,39 @@ fn wind_down(w: &mut World, lid: ResourceId, eps: &[Endpoint], mut peers: Vec<Ra
             w.leaks.push(format!("peer {} closed its side but {} is still registered: no Disconnected", ep.addr(), ep.resource_id()));
         }
     }
+    // every connect() that returned an endpoint is answered by a Connected event (unless removed first)
+    // (a Ws connect to a foreign acceptor that never speaks WebSocket stays pending for as long as that
+    // acceptor keeps the TCP connection: it is owed nothing yet)
+    let silent: Vec<SocketAddr> = raw_listeners.iter().filter_map(|l| l.local_addr().ok()).collect();
+    for ep in eps.iter() {
+        let id = ep.resource_id();
+        if id.adapter_id() == Transport::Ws.id() && silent.contains(&ep.addr()) {
+            continue
+        }
+        let answered = w.hist.iter().any(|i| match i {
+            Item::EvConnected(x, _) => *x == id,
+            Item::Remove(x, res) => *x == id && *res,
+            _ => false,
+        });
+        if !answered {
+            w.leaks.push(format!("connect() returned {} ({}) but no Connected event was ever reported for it (is_ready: {:?})", id, ep.addr(), w.ctl.is_ready(id)));
+        }
+    }
+    // a connection that has ended without the user removing it must have been reported: Disconnected
+    // (or Connected(false) for a connect that never completed)
+    for ep in eps.iter().chain(accepted.iter()) {
+        let id = ep.resource_id();
+        let gone = w.ctl.is_ready(id).is_none();
+        let told = w.hist.iter().any(|i| match i {
+            Item::EvDisconnected(x) => *x == id,
+            Item::EvConnected(x, ok) => *x == id && !*ok,
+            Item::Remove(x, res) => *x == id && *res,
+            _ => false,
+        });
+        if gone && !told {
+            w.leaks.push(format!("{} is not registered any more but neither Disconnected nor a successful remove() was ever recorded for it", id));
+        }
+    }
     for ep in eps.iter().chain(accepted.iter()) {
         w.remove(ep.resource_id());
     }
@@ -573,6 +674,41 @@ fn scenario_endings(w: &mut World, t: Transport, k: u64, rng: &mut Rng) {
         peer_end(p, reset);
     };
     match k {
+        9 => {
+            // destinations the OS rejects at once (TCP towards multicast / broadcast addresses: ENETUNREACH or
+            // EINVAL from connect(2) itself): connect() either reports the error, or it returns an endpoint
+            // and then owes a Connected event for it like for any other
+            for configured in [false, true] {
+                w.configured = configured;
+                for dest in ["224.0.0.1:4567", "239.255.0.1:80", "255.255.255.255:4567"] {
+                    if let Ok(ep) = w.try_connect(t, dest.parse().unwrap()) {
+                        eps.push(ep);
+                    }
+                }
+            }
+            w.pump(200);
+        }
+        8 => {
+            // the peer ends an established connection and, before that is processed, the node keeps sending
+            // to it: the writes fail (EPIPE / ECONNRESET -> ResourceNotFound) while the resource is still
+            // registered; the close processed afterwards must still be reported, once
+            if let Some(p) = raw_connect(w, t, addr) {
+                w.pump(30);
+                let peer_addr = peer_local(&p);
+                let ep = w.accepted.iter().find(|a| Some(a.0.addr()) == peer_addr).map(|a| a.0);
+                if let Some(ep) = ep {
+                    w.send(ep, 5);
+                    std::thread::sleep(Duration::from_millis(20));
+                    end_now(w, p, 1, rng.chance(1, 2));
+                    std::thread::sleep(Duration::from_millis(30));
+                    for i in 0..4 {
+                        w.send(ep, 6 + i);
+                        std::thread::sleep(Duration::from_millis(5));
+                    }
+                    w.is_ready(ep.resource_id());
+                }
+            }
+        }
         7 if t != Transport::Ws => {
             // pending sockets that carry an error other than "refused": inbound connections reset by the
             // peer while still in the accept queue (they must leave no trace and no descriptor), and an
@@ -871,7 +1007,7 @@ fn run_scenarios(out: &mut impl std::io::Write, seed: u64, n: u64, only: Option<
         let mut r = Rng::new(1);
         scenario_conn(&mut w, Transport::Tcp, &mut r);
     }
-    const ENDINGS: u64 = 24; // 8 fixed endings x 3 stream transports, before the random scenarios
+    const ENDINGS: u64 = 30; // 10 fixed endings x 3 stream transports, before the random scenarios
     for i in 0..n + ENDINGS {
         if only.map_or(false, |k| k != i) {
             continue
@@ -1021,6 +1157,12 @@ fn main() {
         "gen" => run_scenarios(&mut out, arg_u64(2, 1), arg_u64(3, 40), None),
         // one scenario of `gen <seed> <n>` alone, in its own process (used to locate a crash)
         "one" => run_scenarios(&mut out, arg_u64(2, 1), arg_u64(3, 40), Some(arg_u64(4, 0))),
+        "gen-emfile" => {
+            for t in [Transport::Tcp, Transport::FramedTcp, Transport::Ws] {
+                let (c, i, o, tg) = run_emfile(t);
+                emit(&mut out, &c, &i, &o, &tg);
+            }
+        }
         "gen-race" => {
             let n = arg_u64(2, 24) as usize;
             for t in [Transport::Tcp, Transport::FramedTcp, Transport::Ws] {
@@ -1030,6 +1172,16 @@ fn main() {
         "run" => {
             // recorded histories depend on peer timing: they are re-judged as recorded
             for line in stdin_lines() {
+                if let Some(name) = line.strip_prefix("net emfile ") {
+                    let t = match name.trim() {
+                        "Tcp" => Transport::Tcp,
+                        "FramedTcp" => Transport::FramedTcp,
+                        _ => Transport::Ws,
+                    };
+                    let (c, i, o, tg) = run_emfile(t);
+                    emit(&mut out, &c, &i, &o, &tg);
+                    continue
+                }
                 emit(&mut out, &line, "ok", "ok", "recorded");
             }
         }
